@@ -73,11 +73,15 @@ TABLE = {
 }
 
 
+# properties whose check has been reviewed and committed by the lead
+READY = {"C01"}
+
+
 def main() -> int:
     checks = []
     not_applicable = []
     for pid, (cat, tech, text, note, ref) in TABLE.items():
-        if (ROOT / "vfpy" / "props" / f"{pid.lower()}.py").exists():
+        if pid in READY and (ROOT / "vfpy" / "props" / f"{pid.lower()}.py").exists():
             checks.append({
                 "property_id": pid,
                 "quick_cmd": f"./vf check {pid} quick",
